@@ -162,6 +162,13 @@ func C06(c *Ctx) {
 					if call.Block() == pp.Block() || InstrDominates(pp.(ssa.Instruction), call.(ssa.Instruction)) || InstrDominates(call.(ssa.Instruction), pp.(ssa.Instruction)) {
 						ok = true
 					}
+					// the password is set inside a helper (hash, then set): every completing
+					// path from there passes the clearing call
+					clr := call.(ssa.Instruction)
+					q := PathQuery{From: pp.(ssa.Instruction), Cut: func(i ssa.Instruction) bool { return i == clr }, GoalP: c.nonErrorReturn}
+					if Reaches(pp.(ssa.Instruction), clr) && q.Find() == nil {
+						ok = true
+					}
 				}
 			}
 		}
@@ -229,6 +236,32 @@ func (c *Ctx) hasherPassThrough() {
 				idx = 0
 			}
 			if idx < 0 {
+				continue
+			}
+			// only where the hasher is used for the account's password (it may also
+			// protect other secrets, e.g. recovery codes, which have their own rules)
+			forPassword := false
+			switch cc.Method.Name() {
+			case "GenerateHash":
+				for _, pp := range c.userCalls(f, "PutPassword") {
+					if HasOrigin(c.rawOrigins(Arg(pp, 0)), func(o Origin) bool { return o.V == call.Value() }) {
+						forPassword = true
+					}
+				}
+				if _, isP := stripConv(Arg(call, idx)).(*ssa.Parameter); isP {
+					forPassword = true // a pass-through wrapper
+				}
+			case "CompareHashAndPassword":
+				hv := stripConv(Arg(call, 0))
+				if hc, _ := CallOf(hv); hc != nil && hc.Common().IsInvoke() && hc.Common().Method.Name() == "GetPassword" {
+					forPassword = true
+				}
+				if _, isP := hv.(*ssa.Parameter); isP {
+					forPassword = true
+				}
+			}
+			if !forPassword {
+				r.Info("C06.hasher", FuncName(f), cc.Method.Name()+" (other secret)", posf(c, call), "the hasher is applied to something other than the account password here")
 				continue
 			}
 			pw := stripConv(Arg(call, idx))
@@ -341,4 +374,34 @@ func (c *Ctx) rememberRevokeWire(ruleWire, ruleRevoke string) {
 		}
 	}
 
+}
+
+// revokeSubject: the request handed to After(EventRecoverEnd) — on which
+// remember revokes its tokens for "the current user" — carries the user whose
+// password was just changed.
+func (c *Ctx) revokeSubject(rule string) {
+	r := c.R
+	endPost := c.P.FuncOpt("(*ab/recover.Recover).EndPost")
+	if endPost == nil {
+		r.Unknown(rule, "(*ab/recover.Recover).EndPost", "handler", "-", "not found")
+		return
+	}
+	re := c.Event("EventRecoverEnd")
+	name := FuncName(endPost)
+	for _, f := range Fires(endPost) {
+		if f.Before || !f.Const || f.Event != re {
+			continue
+		}
+		var putRecv []Origin
+		for _, call := range c.userCalls(endPost, "PutPassword") {
+			putRecv = append(putRecv, c.identityOrigins(c.Origins(call.Common().Value))...)
+		}
+		ok := sameOriginValue(c.identityOrigins(c.Origins(f.Req)), putRecv)
+		if ok {
+			if _, must := c.ctxChain(f.Req, 0).must["user"]; !must {
+				ok = false
+			}
+		}
+		r.Check(ok, rule, name, "FireAfter(EventRecoverEnd).request", posf(c, f.Call), "request context carries the user whose password changed", "the request handed to After(EventRecoverEnd) does not carry the user whose password was changed: the remember tokens revoked are those of whoever the session names (or nobody's)")
+	}
 }
